@@ -327,9 +327,15 @@ def generate(seed, tier):
                 for _ in range(n_eval + 2)],
         'micro': cr.randrange(0, 10**6),
     }
-    return {'prop': ID, 'seed': seed, 'tier': tier, 'world': world,
-            'schedule': s, 'exes': exes, 'steps': steps, 'clock': clock,
-            'np_seed': Rng(seed, 'np').randrange(1 << 32)}
+    out = {'prop': ID, 'seed': seed, 'tier': tier, 'world': world,
+           'schedule': s, 'exes': exes, 'steps': steps, 'clock': clock,
+           'np_seed': Rng(seed, 'np').randrange(1 << 32)}
+    fr = Rng(seed, 'force')
+    if n_eval and fr.chance(.2):
+        # once per run the generator is made to deliver its extreme draws
+        out['force_draw'] = {'eval': fr.randrange(n_eval),
+                             'value': fr.pick(['top', 'top', 'zero'])}
+    return out
 
 
 def free_slot(world, book=None):
@@ -493,6 +499,14 @@ def execute(trace, env=None):
                 (target - clock.now).total_seconds()))
             clock.now = target
             n_eval += 1
+            fd, edited = trace.get('force_draw'), None
+            if fd and fd['eval'] == n_eval - 1:
+                from ..seams import force_draws, unforce_draws
+                edited = force_draws(fd['value'])
+                stats['forced_draw_evaluations'] = stats.get(
+                    'forced_draw_evaluations', 0) + 1
+                stats.setdefault('forced_draw_kinds', {})[fd['value']] = 1
+                log.add('env', 'force-draws', value=fd['value'])
             r0 = len(clock.reads)
             w0 = numpy_pos()
             try:
@@ -502,6 +516,9 @@ def execute(trace, env=None):
                 fail('C13.eval', 'evaluation of %s raised %r' % (
                     exe.kind, ex), tb=traceback.format_exc()[-1500:])
                 continue
+            finally:
+                if edited:
+                    unforce_draws(edited)
             reads = clock.reads[r0:]
             stats['clock_reads'] += len(reads)
             if reads:
